@@ -114,3 +114,22 @@ def toWire (frame : Bytes) : Except Kind Bytes :=
   if frame.all (· < 256) then .ok frame else .error .unicodeEncode
 
 end AsyncFix.Model.Codec
+
+namespace AsyncFix.Model.Codec
+
+/-- the encoding step of `AsyncFIXConnection.send_msg`:
+```
+next_num_out = self._session.next_num_out
+try:    encoded_msg = self._codec.encode(msg, self._session).encode("latin-1")
+except UnicodeEncodeError: self._session.next_num_out = next_num_out; raise EncodingError(...)
+```
+Other exceptions of `encode` propagate with the session as `encode` left it. -/
+def encodeWire (beginString : Bytes) (m : Msg) (s : Session) (now : Bytes) : Except Kind Bytes × Session :=
+  match encode beginString m s false now with
+  | (.ok f, s') =>
+    match toWire f with
+    | .ok w => (.ok w, s')
+    | .error _ => (.error .encodingError, { s' with nextOut := s.nextOut })
+  | (.error k, s') => (.error k, s')
+
+end AsyncFix.Model.Codec
